@@ -223,6 +223,12 @@ class DiffXReader(object):
                         raise DiffXParseError(
                             'JSON metadata could not be parsed: %s' % e,
                             linenum=linenum)
+
+                    if not isinstance(section['metadata'], dict):
+                        raise DiffXParseError(
+                            'JSON metadata must be a dictionary, not %s'
+                            % type(section['metadata']).__name__,
+                            linenum=linenum)
                 else:
                     assert section_id == Section.FILE_DIFF
 
